@@ -8,6 +8,8 @@ package design
 type Design struct {
 	API      string     `json:"api"`
 	Path     string     `json:"path,omitempty"` // API level HTTP base path
+	// LooseDefaults hands array and map defaults to the DSL as []any / map[string]any instead of []string / map[string]string
+	LooseDefaults bool `json:"loose_defaults,omitempty"`
 	Types    []*TypeDef `json:"types,omitempty"`
 	Schemes  []*Scheme  `json:"schemes,omitempty"`
 	Security []Req      `json:"security,omitempty"` // API level requirements
